@@ -11,7 +11,9 @@ PROPS_FILE = "C14/Props.v"
 SHARD = 120
 PER_CASE_TIMEOUT = 60
 RULE = ("random small panels (instances <= 3, columns <= 2, series length <= 9 (<= 16 for interval "
-        "segmentation), values small integers or quarters; Series cells, ndarray cells, 3-d numpy; "
+        "segmentation), values small integers, quarters or tenths; Series cells, ndarray cells, 3-d "
+        "numpy; cell dtype float64 / float32 / int64 / int32 / bool (the same numbers, stored "
+        "differently); pad fill values 0, negative, fractional, NaN; "
         "equal- and, where the transformer supports it, unequal-length) x transformer "
         "configuration: pad length None / longest / longer / too short and fill value; truncation "
         "lower / upper None or around the shortest length; interpolation length 1..12; PAA with every "
@@ -46,7 +48,10 @@ TRUSTED = [
     "acf, sklearn MinMaxScaler, PolynomialTrendForecaster(degree=1) = least-squares line "
     "(correspondence only)",
     "float64 rounding is outside the model: outputs are compared in Q with tolerance "
-    "|a-b| <= 1e-9 * (1 + |a|)",
+    "|a-b| <= 1e-9 * (1 + |a|); cases with float32 CELLS whose result involves arithmetic (interp, "
+    "paa, rife, row means, acf, adaptor, cos) are computed by numpy in single precision: they are "
+    "judged by the oracle with tolerance 1e-4 and not compared in Coq (the exact transformers - "
+    "pad, truncate, tabularise, concatenate, segmenters, affine rows - stay exact and in Coq)",
 ]
 MODELLED = [
     "PAA: the float test `current_frame_size == frame_length` is modelled in exact arithmetic (Q); "
@@ -83,7 +88,10 @@ QUARTERS = [-2.0, -1.0, -0.5, 0.0, 0.25, 0.5, 1.0, 1.5, 2.0, 3.0, 4.0, 5.0, 7.0,
 
 
 def _vals(rng, n, mode=None):
-    mode = mode or rng.choice(["int", "int", "quarter", "ramp"])
+    mode = mode or rng.choice(["int", "int", "quarter", "ramp", "int", "quarter", "tenth"])
+    if mode == "tenth":
+        # not representable in single precision: a float32 / integer buffer on the way shows
+        return [rng.randint(-30, 90) / 10.0 for _ in range(n)]
     if mode == "int":
         return [float(rng.randint(-4, 9)) for _ in range(n)]
     if mode == "ramp":
@@ -126,7 +134,7 @@ def _gen_pad(rng):
     if pl is not None and pl < 1:
         pl = 1
     return {"kind": "pad", "cells": _cells_kind(rng, p, fit=fit), "fit": fit, "X": p, "pad_length": pl,
-            "fill": rng.choice([0.0, 0.0, -1.0, 2.5, 7.0])}
+            "fill": rng.choice([0.0, 0.0, -1.0, 2.5, 7.0, 0.5, -0.5, 2.75, "nan"])}
 
 
 def _gen_trunc(rng):
@@ -153,6 +161,11 @@ def _gen_interp(rng):
 
 
 def _gen_tab(rng, kind):
+    if rng.random() < 0.3:
+        # several columns of >= 2 time points as a 3-d numpy panel: column-then-time order is
+        # only visible there (axis mix-ups give the same values for one column / one time point)
+        p = _panel(rng, "equal", n_cols=rng.choice([2, 2, 3]), nmin=2, nmax=6)
+        return {"kind": kind, "cells": "np3d", "X": p}
     shape = rng.choice(["equal", "rect", "rect", "unequal"])
     p = _panel(rng, shape, n_cols=rng.choice([1, 2, 2, 3]), nmax=6)
     return {"kind": kind, "cells": _cells_kind(rng, p), "X": p}
@@ -263,7 +276,7 @@ def _gen_acf(rng):
     n = rng.randint(2, 9)
     z = _vals(rng, n)
     if rng.random() < 0.08:
-        z = [z[0]] * n          # constant series: 0 / 0
+        z = [round(z[0] * 4) / 4.0] * n      # constant series (exact mean in floating point): 0 / 0
     return {"kind": "acf", "z": z, "n_lags": rng.choice([None, None, 0, 1, 2, 3, n - 1, n, n + 2]),
             "adjusted": rng.random() < 0.4, "fft": rng.random() < 0.3}
 
@@ -288,12 +301,50 @@ GENS = [("rife", _gen_rife, 50), ("row", _gen_row, 50), ("impute", _gen_impute, 
         ("paa", _gen_paa, 90), ("iseg", _gen_iseg, 70), ("slide", _gen_slide, 60)]
 
 
+DTYPES = ["int64", "int32", "bool", "float32"]
+PANEL_KINDS = ("pad", "trunc", "interp", "tab", "concat", "paa", "iseg", "slide", "rife",
+               "row_s2s", "row_s2p")
+
+
+def _cast(v, dtype):
+    """the value as it is after storing it in a cell of that dtype (exactly representable)"""
+    import math
+    if dtype == "bool":
+        return 1.0 if v > 0 else 0.0
+    if dtype.startswith("int"):
+        return float(math.floor(v))
+    import struct
+    return struct.unpack("f", struct.pack("f", v))[0]      # the nearest float32, exactly
+
+
+def _dtype_dim(rng, c):
+    """generator dimension `cell dtype`: the SAME numbers stored as int64 / int32 / bool / float32
+    cells (nested Series cells, ndarray cells, 3-d numpy panels; single series for cos / acf /
+    adaptor).  The expected output is always computed in exact arithmetic from the numbers."""
+    k = c["kind"]
+    if k in PANEL_KINDS and rng.random() < (0.5 if k == "pad" else 0.3):
+        dt = rng.choice(DTYPES)
+        c["dtype"] = dt
+        for key in ("X", "fit"):
+            if c.get(key) is not None:
+                c[key] = [[[_cast(v, dt) for v in s] for s in row] for row in c[key]]
+    elif k in ("cos", "acf", "adapt") and rng.random() < 0.25:
+        dt = rng.choice(["int64", "int32", "float32"])
+        c["dtype"] = dt
+        for key in ("cols", "fit"):
+            if c.get(key) is not None:
+                c[key] = [[_cast(v, dt) for v in col] for col in c[key]]
+        if c.get("z") is not None:
+            c["z"] = [_cast(v, dt) for v in c["z"]]
+    return c
+
+
 def gen_cases(rng, tier):
     cases = []
     mult = 1 if tier == "quick" else 12
     for _, g, k in GENS:
         for _ in range(k * mult):
-            cases.append(g(rng))
+            cases.append(_dtype_dim(rng, g(rng)))
     if tier == "thorough":
         cases += exhaustive_cases()
     return cases
@@ -332,6 +383,32 @@ def exhaustive_cases():
                 for up in range(lo, mn + 2):
                     out.append({"kind": "trunc", "cells": "series", "fit": None, "X": pu,
                                 "lower": lo, "upper": up})
+    # cell dtype x fill value (padder) and cell dtype x every other panel transformer
+    ragged = [[[1.0, 0.0, 3.0], [2.0, 1.0]], [[0.0, 1.0, 1.0, 5.0], [1.0]]]
+    square = [[[1.0, 0.0, 3.0, 2.0]], [[0.0, 1.0, 1.0, 5.0]]]
+    for dt in DTYPES:
+        def cast(p):
+            return [[[_cast(v, dt) for v in s] for s in row] for row in p]
+        for fill in (0.5, -0.5, 2.75, -1.0, 0.0, "nan"):
+            for cells, p in (("series", ragged), ("array", ragged), ("np3d", square),
+                             ("series", square)):
+                for pl in (None, 6):
+                    out.append({"kind": "pad", "cells": cells, "fit": None, "X": cast(p),
+                                "pad_length": pl, "fill": fill, "dtype": dt})
+        for cells in ("series", "array", "np3d"):
+            q = cast(square)
+            base = {"cells": cells, "X": q, "dtype": dt}
+            out.append(dict(base, kind="trunc", fit=None, lower=1, upper=3))
+            out.append(dict(base, kind="interp", length=7))
+            out.append(dict(base, kind="tab"))
+            out.append(dict(base, kind="concat"))
+            out.append(dict(base, kind="paa", m=3))
+            out.append(dict(base, kind="iseg", mode="int", fit=None, k=2))
+            out.append(dict(base, kind="slide", w=3))
+            out.append(dict(base, kind="row_s2s", f=["affine", -0.5, 3.0]))
+            out.append(dict(base, kind="row_s2p", g="weighted"))
+            out.append(dict(base, kind="rife", fit=None, feats=["mean", "std", "slope"],
+                            n_intervals=2, min_length=None, seed=7))
     return out
 
 
@@ -339,17 +416,17 @@ def exhaustive_cases():
 # implementation side (runs in the driver subprocess)
 
 
-def _mk_panel(p, cells):
+def _mk_panel(p, cells, dtype="float64"):
     import numpy as np
     import pandas as pd
     if cells == "np3d":
-        return np.array(p, dtype=float)
+        return np.array(p, dtype=float).astype(dtype)
     d = {}
     for c in range(len(p[0])):
         if cells == "array":
-            col = [np.array(row[c], dtype=float) for row in p]
+            col = [np.array(row[c], dtype=float).astype(dtype) for row in p]
         else:
-            col = [pd.Series(row[c], dtype=float) for row in p]
+            col = [pd.Series(np.array(row[c], dtype=float).astype(dtype)) for row in p]
         d["c%d" % c] = pd.Series(col, dtype=object)
     return pd.DataFrame(d)
 
@@ -371,12 +448,12 @@ def _canon_rows(Xt):
     return [[_canon_cell(a[i])] for i in range(a.shape[0])]
 
 
-def _mk_series(cols, t0=0):
+def _mk_series(cols, t0=0, dtype="float64"):
     import pandas as pd
     idx = pd.RangeIndex(t0, t0 + len(cols[0]))
     if len(cols) == 1:
-        return pd.Series(cols[0], dtype=float, index=idx)
-    return pd.DataFrame({"c%d" % i: pd.Series(c, dtype=float, index=idx)
+        return pd.Series(cols[0], dtype=float, index=idx).astype(dtype)
+    return pd.DataFrame({"c%d" % i: pd.Series(c, dtype=float, index=idx).astype(dtype)
                          for i, c in enumerate(cols)})
 
 
@@ -441,13 +518,15 @@ def run_impl(case):
     import numpy as np
     k = case["kind"]
     try:
-        X = _mk_panel(case["X"], case.get("cells", "series")) if "X" in case else None
+        dt = case.get("dtype", "float64")
+        X = _mk_panel(case["X"], case.get("cells", "series"), dt) if "X" in case else None
         Xfit = X
-        if case.get("fit") is not None:
-            Xfit = _mk_panel(case["fit"], case.get("cells", "series"))
+        if case.get("fit") is not None and "X" in case:
+            Xfit = _mk_panel(case["fit"], case.get("cells", "series"), dt)
         if k == "pad":
             from sktime.transformations.panel.padder import PaddingTransformer
-            t = PaddingTransformer(pad_length=case["pad_length"], fill_value=case["fill"])
+            fill = float("nan") if case["fill"] == "nan" else case["fill"]
+            t = PaddingTransformer(pad_length=case["pad_length"], fill_value=fill)
             return {"panel": _canon_panel(t.fit(Xfit).transform(X))}
         if k == "trunc":
             from sktime.transformations.panel.truncation import TruncationTransformer
@@ -521,21 +600,21 @@ def run_impl(case):
             return out
         if k == "cos":
             from sktime.transformations.series.cos import CosineTransformer
-            Z = _mk_series(case["cols"])
+            Z = _mk_series(case["cols"], dtype=dt)
             Zt = CosineTransformer().fit(Z).transform(Z)
             return {"panel": [_canon_cols(Zt)]}
         if k == "acf":
             import pandas as pd
             from sktime.transformations.series.acf import AutoCorrelationTransformer
-            z = pd.Series(case["z"], dtype=float)
+            z = pd.Series(case["z"], dtype=float).astype(dt)
             t = AutoCorrelationTransformer(n_lags=case["n_lags"], adjusted=case["adjusted"],
                                            fft=case["fft"])
             return {"panel": [[_canon_cell(t.fit(z).transform(z))]]}
         if k == "adapt":
             from sklearn.preprocessing import MinMaxScaler
             from sktime.transformations.series.adapt import TabularToSeriesAdaptor
-            t = TabularToSeriesAdaptor(MinMaxScaler()).fit(_mk_series(case["fit"]))
-            Z = _mk_series(case["cols"], t0=3)
+            t = TabularToSeriesAdaptor(MinMaxScaler()).fit(_mk_series(case["fit"], dtype=dt))
+            Z = _mk_series(case["cols"], t0=3, dtype=dt)
             Zt = t.transform(Z)
             return {"panel": [_canon_cols(Zt)], "index_kept": bool(Zt.index.equals(Z.index))}
         raise AssertionError("unknown kind " + k)
@@ -555,8 +634,21 @@ def _frp(p):
     return [[[Fr(x) for x in s] for s in row] for row in p]
 
 
+_TOL = [Fr(1, 10 ** 9)]     # relative tolerance of the case being judged (set by oracle())
+
+
 def _close(a, b):
-    return abs(a - b) <= Fr(1, 10 ** 9) * (1 + abs(b))
+    return abs(a - b) <= _TOL[0] * (1 + abs(b))
+
+
+INEXACT_KINDS = ("interp", "paa", "rife", "row_s2p", "acf", "adapt", "cos")
+
+
+def _case_tol(case):
+    """float64 rounding: 1e-9 relative.  float32 CELLS make numpy compute in single precision
+    (eps 6e-8; sums / products / a quotient of differences over <= 16 values of size <= 13):
+    1e-4 relative - still far below any wrong index / weight / length."""
+    return Fr(1, 10 ** 4) if case.get("dtype") == "float32" else Fr(1, 10 ** 9)
 
 
 def _cmp_panel(tag, out, exp, exact=True):
@@ -575,6 +667,11 @@ def _cmp_panel(tag, out, exp, exact=True):
                 return "%s-cell-length: instance %d column %d has %d values expected %d" % (
                     tag, i, c, len(gs), len(es))
             for j, (g, e) in enumerate(zip(gs, es)):
+                if e is None:
+                    if g is not None:
+                        return "%s-cell-value: instance %d column %d position %d is %s expected NaN" % (
+                            tag, i, c, j, g if isinstance(g, str) else float(_fr(g)))
+                    continue
                 if g is None or isinstance(g, str):
                     return "%s-not-finite: instance %d column %d position %d" % (tag, i, c, j)
                 g = _fr(g)
@@ -630,6 +727,7 @@ def split_bounds(n, k):
 
 
 def oracle(case, out):
+    _TOL[0] = _case_tol(case)
     k = case["kind"]
     cells = case.get("cells", "series")
     if out.get("err") in ("AttributeError", "KeyError", "ZeroDivisionError"):
@@ -642,7 +740,7 @@ def oracle(case, out):
         L = case["pad_length"] if case["pad_length"] is not None else max(_lens(fit))
         if max(_lens(p)) > L:
             return _expect_err(k, out, "series longer than pad length %d" % L)
-        fill = Fr(case["fill"])
+        fill = None if case["fill"] == "nan" else Fr(case["fill"])      # None = NaN expected
         exp = [[s + [fill] * (L - len(s)) for s in row] for row in p]
         return _cmp_panel(k, out, exp)
     if k == "trunc":
@@ -701,7 +799,8 @@ def oracle(case, out):
             return _expect_err(k, out, "unequal-length panel")
         f = case["f"]
         exp = [[_sfun(f, s) for s in row] for row in p]
-        return _cmp_panel(k, out, exp)
+        # affine / cumulative sums round in floating point; a reversal must be exact
+        return _cmp_panel(k, out, exp, exact=(f[0] == "reverse"))
     if k == "row_s2p":
         if len(set(_lens(p))) != 1:
             return _expect_err(k, out, "unequal-length panel")
@@ -722,7 +821,7 @@ def oracle(case, out):
             return "cos-shape: %s" % [len(c) for c in got]
         for c, (gc, xc) in enumerate(zip(got, case["cols"])):
             for j, (g, x) in enumerate(zip(gc, xc)):
-                if g is None or abs(float(_fr(g)) - math.cos(x)) > 1e-9:
+                if g is None or abs(float(_fr(g)) - math.cos(x)) > float(_TOL[0]):
                     return "cos-cell-value: column %d position %d" % (c, j)
         return None
     if k == "acf":
@@ -735,6 +834,8 @@ def oracle(case, out):
             den = (n - kk) if case["adjusted"] else n
             return sum((d[t] * d[t + kk] for t in range(n - kk)), Fr(0)) / den
         if cov(0) == 0:
+            if _inexact_constant(case["z"]):
+                return None         # 0 / 0 up to rounding of the mean: the coefficients are undefined
             if "err" in out or any(v is None for v in out["panel"][0][0]):
                 return None
             return "acf-constant-series-not-nan"
@@ -754,6 +855,12 @@ def oracle(case, out):
             return "adapt-index-not-kept"
         return f
     return "unknown-kind"
+
+
+def _inexact_constant(z):
+    """a constant series whose value is not a multiple of 1/4: the floating-point mean need not be
+    the value itself, so the deviations are rounding noise instead of exact zeros"""
+    return len(set(z)) == 1 and Fr(z[0]) * 4 != int(Fr(z[0]) * 4)
 
 
 def _sfun(f, s):
@@ -938,6 +1045,10 @@ def nontrivial(case, out):
 
 def shrink(case):
     c = dict(case)
+    if c.get("dtype"):
+        d = dict(c)
+        d.pop("dtype")
+        yield d                       # not a dtype effect if it still fails with float64 cells
     if c.get("z2") is not None:
         d = dict(c)
         d.pop("z2")
@@ -1043,9 +1154,13 @@ def _civs(ivs):
 
 def coq_case(case, out):
     k = case["kind"]
+    if case.get("dtype") == "float32" and (k in INEXACT_KINDS or k == "rife"):
+        return None     # single-precision arithmetic: judged by the oracle with its own tolerance
     o = _cout(out)
     X = _cpanel(case["X"]) if "X" in case else None
     if k == "pad":
+        if case["fill"] == "nan":
+            return None                       # NaN is not a rational: oracle only
         return "CPad %s %s %s %s %s" % (copt(case["pad_length"], cnat), _cq(case["fill"]),
                                        _cfit(case), X, o)
     if k == "trunc":
@@ -1096,6 +1211,8 @@ def coq_case(case, out):
     if k == "cos":
         return "CCos %s %s" % (clist([_cser(c) for c in case["cols"]]), o)
     if k == "acf":
+        if _inexact_constant(case["z"]):
+            return None
         return "CAcf %s %s %s %s" % (cbool(case["adjusted"]), copt(case["n_lags"], cnat),
                                     _cser(case["z"]), o)
     if k == "adapt":
@@ -1122,6 +1239,11 @@ def distribution(cases, results):
             d["impute:%s" % ("frame" if c.get("z2") is not None else "series")] += 1
             d["impute-method:%s" % c["method"]] += 1
         d["cells:%s" % c.get("cells", "-")] += 1
+        d["dtype:%s" % c.get("dtype", "float64")] += 1
+        if c["kind"] == "pad":
+            f = c["fill"]
+            d["pad-fill:%s" % ("nan" if f == "nan" else "integer" if float(f).is_integer()
+                               else "fractional")] += 1
         if c["kind"] == "paa" and "err" not in o:
             n = len(c["X"][0][0])
             d["paa:%s" % ("m-divides-n" if n % c["m"] == 0 else "fractional-frames")] += 1
